@@ -334,6 +334,9 @@ def run(ctx):
            fail="_connect does not arm the connection lifetime")
     from ..shared import check as shared_check
     shared_check(ctx, "C07.b", [prog.cls(V2), prog.cls(V3), prog.cls(LAN)], "the protocol and connection classes")
+    # the session a data packet is encrypted under is the one the handshake established: who stores key / expiry, and when (C06's obligations)
+    from . import c06
+    ctx.import_rules(c06, "t6")
     ctx.require_min("data_writes", 1)
     ctx.require_min("handshake_writes", 1)
     ctx.require_min("session_attrs", 3)
